@@ -1,3 +1,4 @@
+use crate::backend::Turn;
 use crate::codec::*;
 use crate::endpoint::Endpoint;
 use crate::error::*;
@@ -57,6 +58,8 @@ impl SocketSend for ReqSocket {
                     })
                 }
             };
+            // The peer keeps its turn even if this future is dropped while waiting.
+            let mut turn = Turn::new(&self.backend.round_robin, next_peer_id.clone());
             if let Some(mut peer) = self.backend.peers.get_async(&next_peer_id).await {
                 message.push_front(Bytes::new());
                 let send_result = peer.send_queue.send(Message::Message(message)).await;
@@ -64,13 +67,15 @@ impl SocketSend for ReqSocket {
                 if let Err(e) = send_result {
                     // The connection is gone: forget the peer instead of rotating
                     // back to it.
+                    turn.forget();
                     self.backend.peer_disconnected(&next_peer_id);
                     return Err(e.into());
                 }
-                self.backend.round_robin.push(next_peer_id.clone());
+                drop(turn);
                 self.current_request = Some(next_peer_id);
                 return Ok(());
             }
+            turn.forget();
         }
     }
 }
